@@ -215,6 +215,15 @@ def _hexstr(rng, n: int = 64) -> str:
     return "".join(rng.choice(HEX) for _ in range(n))
 
 
+def respellings(name: str) -> List[str]:
+    """Other spellings of a project name that normalise to the same project."""
+    out = {name.lower(), name.upper(), name.capitalize(), name.swapcase()}
+    for x, y in (("-", "."), (".", "-"), ("_", "."), (".", "_"), ("-", "_"), ("_", "-")):
+        out.add(name.replace(x, y))
+        out.add(name.replace(x, y).lower())
+    return sorted(out)
+
+
 def gen_spec(rng, odd: float = 0.2) -> Dict[str, Any]:
     """A JSON-able description of one case: universe, inputs, directives, label."""
     n = rng.choice([1, 2, 2, 3, 3, 4, 5, 6, 8])
@@ -263,6 +272,12 @@ def gen_spec(rng, odd: float = 0.2) -> Dict[str, Any]:
             requires.append(s)
             if rng.random() < 0.15:   # the same project required twice (two annotations from one requirer)
                 requires.append(spelled + ">=0 ; extra == \"%s\"" % rng.choice(extras_pool))
+            if rng.random() < 0.2:
+                # ... and twice under two spellings with the very same extras/specifier/marker: the
+                # requirer's explanation then contains two identical strings
+                alts = [x for x in respellings(spelled) if x != spelled]
+                if alts:
+                    requires.append(rng.choice(alts) + s[len(spelled):])
         fnbase = nm.replace("-", "_")
         use_wheel_dir = bool(fls) and rng.random() < 0.6
         is_wheel = rng.random() < 0.8
@@ -299,6 +314,11 @@ def gen_spec(rng, odd: float = 0.2) -> Dict[str, Any]:
                 s += "[" + rng.choice(extras_pool) + "]"
             s += rng.choice(SPECS).split(" ;")[0]
             reqs.append(s)
+            if rng.random() < 0.15:
+                base_name = r_ if s.startswith(r_) else r_.upper()
+                alts = [x for x in respellings(base_name) if x != base_name]
+                if alts:
+                    reqs.append(rng.choice(alts) + s[len(base_name):])
         nm_in = INPUT_NAMES[i] if rng.random() < 0.75 else rng.choice(INPUT_NAMES)
         while any(x["name"] == nm_in for x in inputs):     # distinct input files (one graph node each)
             nm_in = rng.choice(INPUT_NAMES)
@@ -652,23 +672,28 @@ def run_e2e_full(ctx: Ctx, layout: Dict[str, Any]) -> Tuple[str, Dict[str, str]]
     shutil.rmtree(ws, ignore_errors=True)
     rd = ws / layout["reqs_dir"]
     rd.mkdir(parents=True)
-    ind = Path(os.path.normpath(rd / layout.get("in_dir", ".")))
-    ind.mkdir(parents=True, exist_ok=True)
+    inputs = layout_inputs(layout)
     shas: Dict[str, str] = {}
     for d, whls in layout["wheels"].items():
         Path(os.path.normpath(rd / d)).mkdir(parents=True, exist_ok=True)
         for name, ver, requires in whls:
             fn = mkwheel(Path(os.path.normpath(rd / d)), name, ver, requires)
             shas[fn.name] = hashlib.sha256(fn.read_bytes()).hexdigest()
-    (ind / "requirements.in").write_text(layout["requirements_in"])
     (rd / "requirements.txt").write_text("")
-    key_in = "_main/%s/requirements.in" % os.path.relpath(ind, ws).replace(os.sep, "/")
     key_sol = "_main/%s/requirements.txt" % layout["reqs_dir"]
     r = e.Runfiles()
-    r.map = {key_in: str(ind / "requirements.in"), key_sol: str(rd / "requirements.txt")}
+    r.map = {key_sol: str(rd / "requirements.txt")}
+    keys_in = []
+    for inp in inputs:
+        ind = Path(os.path.normpath(rd / inp["in_dir"]))
+        ind.mkdir(parents=True, exist_ok=True)
+        (ind / "requirements.in").write_text(inp["requirements_in"])
+        key_in = "_main/%s/requirements.in" % os.path.relpath(ind, ws).replace(os.sep, "/")
+        r.map[key_in] = str(ind / "requirements.in")
+        keys_in.append(key_in)
     old_env = os.environ.get("BUILD_WORKSPACE_DIRECTORY")
     os.environ["BUILD_WORKSPACE_DIRECTORY"] = str(ws)
-    args = argparse.Namespace(requirements_files=[key_in], solution=key_sol, output=Path(layout["reqs_dir"]) / "requirements.txt",
+    args = argparse.Namespace(requirements_files=keys_in, solution=key_sol, output=Path(layout["reqs_dir"]) / "requirements.txt",
                               custom_compile_command="bazel run //%s:requirements.update" % layout["reqs_dir"], upgrade=False,
                               allow_sdists=False, no_index=True, wheel_dir=None, verbose=False)
     so, old = io.StringIO(), sys.stdout
@@ -692,13 +717,22 @@ def run_e2e(ctx: Ctx, layout: Dict[str, Any]) -> str:
     return run_e2e_full(ctx, layout)[0]
 
 
+def layout_inputs(layout: Dict[str, Any]) -> List[Dict[str, str]]:
+    """The requirement files of a layout: [{in_dir (relative to the lock's directory), requirements_in}]."""
+    if "inputs" in layout:
+        return layout["inputs"]
+    return [{"in_dir": layout.get("in_dir", "."), "requirements_in": layout["requirements_in"]}]
+
+
 E2E_IN_DIRS = [".", ".", "in", "sub/in", "../sib", "../../other/in"]
 
 
 def gen_layout(rng, fls: Optional[List[str]] = None) -> Dict[str, Any]:
     """Workspace layouts for compile_main.  The wheel directories are given relative to the
-    lock file's directory; requirements.in may live elsewhere (sub-directory, sibling
-    directory) and names them relative to itself, as a user writes them."""
+    lock file's directory; the requirement files (one, or several in different directories)
+    may live elsewhere (sub-directory, sibling directory) and name the wheel directories
+    relative to themselves, as a user writes them - so several inputs reach one wheel
+    directory through different spellings ("wheeldir", "../wheeldir", "../../pkg/wheeldir")."""
     names = rng.sample(["Foo.Bar", "baz-qux", "lone", "extra1", "Zed", "m.n-o", "pkg_a"], rng.choice([2, 3, 4, 5]))
     if fls is None:
         fls = [rng.choice(FL_SIMPLE)] if rng.random() < 0.75 else rng.choice([["w1", "w2"], ["sub/wheels"], ["../wheels"], ["./wheels"]])
@@ -707,21 +741,41 @@ def gen_layout(rng, fls: Optional[List[str]] = None) -> Dict[str, Any]:
         reqs = []
         for dep in names[i + 1:]:
             if rng.random() < 0.5:
-                reqs.append(dep + rng.choice(["", ">=0", "[x]", " ; extra == 'x'"]))
+                tail = rng.choice(["", ">=0", "[x]", " ; extra == 'x'"])
+                reqs.append(dep + tail)
+                if rng.random() < 0.2:      # the same project again under another spelling, same tail
+                    alts = [x for x in respellings(dep) if x != dep]
+                    reqs.append(rng.choice(alts) + tail)
         wheels[rng.choice(fls)].append([nm, rng.choice(["1.0", "2.1", "0.3.post1"]), reqs])
     reqs_dir = rng.choice(["pkg", "a/b", "x", "3rdparty"])
-    in_dir = rng.choice(E2E_IN_DIRS)
-    if in_dir.startswith("../../") and "/" not in reqs_dir:
-        in_dir = "../sib"          # stay inside the workspace
-    directives = []
-    for d in fls:
-        rel = os.path.relpath(os.path.normpath(os.path.join("/ws", reqs_dir, d)), os.path.normpath(os.path.join("/ws", reqs_dir, in_dir)))
-        if d.startswith("./") and in_dir == ".":
-            rel = d
-        directives.append(rel.replace(os.sep, "/"))
-    return {"reqs_dir": reqs_dir, "in_dir": in_dir, "wheels": wheels, "find_links": fls, "recompile": rng.random() < 0.3,
-            "root": names[0],
-            "requirements_in": "".join("--find-links %s\n" % d for d in directives) + "\n" + names[0].lower() + rng.choice(["", "[x]"]) + "\n"}
+    n_inputs = rng.choice([1, 1, 2, 2, 3])
+    in_dirs = rng.sample(E2E_IN_DIRS_DISTINCT, n_inputs)
+    if rng.random() < 0.5 and "." not in in_dirs:
+        in_dirs[0] = "."
+    roots = [names[0]] + rng.sample(names[1:], min(len(names) - 1, n_inputs - 1))
+    inputs = []
+    for k, in_dir in enumerate(in_dirs):
+        if in_dir.startswith("../../") and "/" not in reqs_dir:
+            in_dir = "../sib%d" % k          # stay inside the workspace
+        directives = []
+        for d in fls:
+            rel = os.path.relpath(os.path.normpath(os.path.join("/ws", reqs_dir, d)), os.path.normpath(os.path.join("/ws", reqs_dir, in_dir)))
+            if d.startswith("./") and in_dir == ".":
+                rel = d
+            directives.append(rel.replace(os.sep, "/"))
+        mine = [roots[k]] if k < len(roots) else [roots[0]]
+        lines = []
+        for nm in mine:
+            tail = rng.choice(["", "[x]"])
+            lines.append(nm.lower() + tail)
+            if rng.random() < 0.2:
+                alts = [x for x in respellings(nm) if x != nm.lower()]
+                lines.append(rng.choice(alts) + tail)
+        inputs.append({"in_dir": in_dir, "requirements_in": "".join("--find-links %s\n" % d for d in directives) + "\n" + "\n".join(lines) + "\n"})
+    return {"reqs_dir": reqs_dir, "inputs": inputs, "wheels": wheels, "find_links": fls, "recompile": rng.random() < 0.3}
+
+
+E2E_IN_DIRS_DISTINCT = [".", "in", "sub/in", "dev", "../sib", "../../other/in"]
 
 
 def layout_accepted(layout: Dict[str, Any]) -> bool:
@@ -742,7 +796,18 @@ def oracle_e2e(ctx: Ctx, layout: Dict[str, Any]) -> Optional[str]:
     file below the lock's package, and exactly the projects its metadata requires."""
     from packaging.requirements import Requirement
     e = env()
-    text, shas = run_e2e_full(ctx, layout)
+    try:
+        text, shas = run_e2e_full(ctx, layout)
+    except SystemExit:
+        raise
+    except Exception as ex:
+        if not layout.get("recompile"):
+            return "compile_main crashed: %s: %s" % (type(ex).__name__, str(ex)[:200])
+        # the second compilation (against the lock just written) crashed: judge the first lock
+        first = dict(layout)
+        first["recompile"] = False
+        why = oracle_e2e(ctx, first)
+        return why or "re-compiling against the lock just written crashed: %s: %s" % (type(ex).__name__, str(ex)[:200])
     label = "@//%s:requirements.txt" % layout["reqs_dir"]
     obs = canon_impl(e, text, label, None, {})
     if obs[0] != "OK":
@@ -752,7 +817,7 @@ def oracle_e2e(ctx: Ctx, layout: Dict[str, Any]) -> Optional[str]:
     for d, whls in layout["wheels"].items():
         for name, ver, requires in whls:
             projects[_nkey(name)] = (name, ver, [Requirement(r) for r in requires], d)
-    lines = [l.strip() for l in layout["requirements_in"].split("\n") if l.strip() and not l.startswith("-")]
+    lines = [l.strip() for inp in layout_inputs(layout) for l in inp["requirements_in"].split("\n") if l.strip() and not l.startswith("-")]
     extras: Dict[str, set] = {}
     edges: Dict[str, set] = {}
     todo = []
@@ -909,10 +974,18 @@ def correspondence(ctx: Ctx) -> None:
         except SystemExit:
             ctx.count("e2e-skipped:exit")
             continue
+        except Exception as ex:   # the front-end itself crashed (e.g. re-compiling the lock it just wrote)
+            ctx.count("e2e-crashed:" + type(ex).__name__)
+            if layout_accepted(layout):
+                ctx.mismatch("statement-on-implementation:e2e", {"src": "e2e", "layout": layout},
+                             "compile_main crashed: %s: %s" % (type(ex).__name__, str(ex)[:200]), "a lock is written and read back (theorem)")
+            continue
         label = "@//%s:requirements.txt" % layout["reqs_dir"]
         obs = canon_impl(e, text, label, None, {})
         ctx.count("e2e:" + ("ok" if obs[0] == "OK" else obs[1]))
-        ctx.count("e2e-input-dir:" + layout["in_dir"] + (",recompiled" if layout["recompile"] else ""))
+        ctx.count("e2e-inputs:%d%s" % (len(layout["inputs"]), ",recompiled" if layout["recompile"] else ""))
+        for inp in layout["inputs"]:
+            ctx.count("e2e-input-dir:" + inp["in_dir"])
         add("P", p_line(e, text, label, None, {}), {"src": "e2e", "layout": layout, "text": text, "label": label, "constraint": None, "annotations": {}, "impl": obs})
         texts.append((text, label))
         if layout_accepted(layout):
